@@ -324,14 +324,30 @@ class Codec(ABC):
         @staticmethod
         def output_key_for_override_key(override_key: str) -> Optional[DataSourceKey]:
             """Converts an override key to the key at which it should be stored"""
-            if override_key and override_key.split("/", 1)[0] == "c":
-                # Objects under "c/" are addressed by the hash of their content and shared
-                # between results: an arbitrary object stored there would be taken for the
-                # content that hashes to its name.
-                raise ValueError(
-                    "Key override '{}' is not allowed: 'c/' is reserved for "
-                    "content-addressed objects".format(override_key)
-                )
+            if override_key:
+                parts = override_key.split("/")
+                if any(part in ("", ".", "..") for part in parts):
+                    # Such a key names another place than it appears to: it could leave the
+                    # store, or reach one of the reserved areas under another spelling
+                    raise ValueError(
+                        "Key override '{}' is not allowed: it must be a relative path "
+                        "without empty, '.' or '..' components".format(override_key)
+                    )
+                if parts[0] == "c":
+                    # Objects under "c/" are addressed by the hash of their content and shared
+                    # between results: an arbitrary object stored there would be taken for the
+                    # content that hashes to its name.
+                    raise ValueError(
+                        "Key override '{}' is not allowed: 'c/' is reserved for "
+                        "content-addressed objects".format(override_key)
+                    )
+                if parts[0] == "m":
+                    # When data and metadata share a path, "m/" holds the entries of the
+                    # memoized calls: an object stored there would be listed as a function.
+                    raise ValueError(
+                        "Key override '{}' is not allowed: 'm/' is reserved for "
+                        "metadata".format(override_key)
+                    )
             return DataSourceKey(override_key) if override_key else None
 
     class NullStrategy(Strategy):
